@@ -120,10 +120,12 @@ where
             .metric
             .concurrency_counter
             .add_if_absent(arg.clone(), 0);
-        if last_concurrency.is_none() {
-            return TokenResult::new_pass();
-        }
-        let concurrency = last_concurrency.unwrap().load(Ordering::SeqCst) + 1;
+        // a value seen for the first time has nothing in flight; it is checked against its
+        // threshold like any other (a threshold or override of 0 closes the value)
+        let concurrency = last_concurrency
+            .map(|c| c.load(Ordering::SeqCst))
+            .unwrap_or(0)
+            + 1;
 
         let threshold = {
             // settings stored in the `specific_items` is prior to the `threshold` in `rule`
